@@ -44,6 +44,13 @@ def rand_tree(r: random.Random, leaves: int, scripts: list[list[Any]], shape: st
         return [rand_tree(r, leaves - 1, scripts, shape), leaf()]
     if shape == "right":
         return [leaf(), rand_tree(r, leaves - 1, scripts, shape)]
+    if shape == "twins":
+        # a branch whose two children are the same subtree (the same leaf beside itself when there are two leaves): BIP341 hashes 64 bytes all the same
+        sub = rand_tree(r, max(1, leaves // 2), scripts, "random")
+        return [sub, sub]
+    if shape == "twins below":
+        sub = rand_tree(r, max(1, (leaves - 1) // 2), scripts, "random")
+        return [leaf(), [sub, sub]]
     k = r.randrange(1, leaves) if shape == "random" else leaves // 2
     return [rand_tree(r, k, scripts, shape), rand_tree(r, leaves - k, scripts, shape)]
 
@@ -69,9 +76,11 @@ def record(run: Run, n_trees: int, flips: int) -> list[dict[str, Any]]:
     r = random.Random(run.seed + 12)
     evs: list[dict[str, Any]] = []
     scripts: list[list[Any]] = [["OP_1"], ["OP_2", "OP_DROP", "OP_1"], [bytes(range(32)).hex(), "OP_CHECKSIG"], ["OP_1"], ["OP_RETURN"],
-                                [("ab" * 300)], ["OP_IF", "OP_1", "OP_ELSE", "OP_0", "OP_ENDIF"]]
+                                [("ab" * 300)], ["OP_IF", "OP_1", "OP_ELSE", "OP_0", "OP_ENDIF"],
+                                # leaf scripts of 252, 253, 254 and 256 bytes: on either side of the one-byte compact size of the tapleaf hash
+                                [("ab" * 250)], [("ab" * 251)], [("ab" * 252)], [("ab" * 254)]]
     start = is_libsecp256k1_serving()
-    shapes = ["left", "right", "balanced", "random"]
+    shapes = ["left", "right", "balanced", "random", "twins", "twins below"]
     try:
         for t in range(n_trees):
             arm = (t % 2 == 0) if start else False
@@ -97,8 +106,12 @@ def record(run: Run, n_trees: int, flips: int) -> list[dict[str, Any]]:
             nl = r.choice([0, 1, 2, 3, 4, 5, 8]) if t % 7 else r.choice([16, 40])
             if t in (3, 5):
                 nl = 129                     # a comb whose deepest leaf sits at depth 128, the most a control block can prove
-            shape = shapes[t % 4] if nl < 16 else r.choice(["left", "right"])
-            tree = rand_tree(r, nl, scripts, shape) if nl else None
+            shape = shapes[t % 6] if nl < 16 else r.choice(["left", "right"])
+            if shape.startswith("twins") and nl < 2:
+                nl = 2 if shape == "twins" else 3
+            # (the first four trees draw every leaf from one of the boundary-length scripts, whatever the seed)
+            pool = [scripts[7 + t]] if t < 4 and t not in (3,) else ([scripts[10]] + scripts[:3] if t == 6 else scripts)
+            tree = rand_tree(r, nl, pool, shape) if nl else None
             tj = tree_json(tree) if tree else {"none": 1}
             base = {"tag": tag, "spelling": spell, "shape": f"{shape}/{nl}", "px": nat(P[0]), "tree": tj}
             res = _x(lambda: taproot.output_pubkey(key, tree))
